@@ -87,15 +87,50 @@ Proof. split; vm_compute; reflexivity. Qed.
       For every script of sets, deletes, gets and reopens, every crash image of its trace recovers to
       the map after the first n operations for some n: all acknowledged operations, and the one in
       flight entirely or not at all. *)
-Theorem C03_crash_safe_no_merge : forall c ops s0, no_merge ops -> rep s0 (s_dir init) ->
+Theorem C03_crash_safe_no_merge : forall c ops s0, no_merge ops -> rep s0 (s_dir init) -> trace_wf (snd (run c init ops)) ->
   forall img, image_of s0 (snd (run c init ops)) img ->
     exists n, (n <= length ops)%nat /\ img_ok img (abs (state_after c init ops n)).
 Proof. exact crash_safe_no_merge. Qed.
 Print Assumptions C03_crash_safe_no_merge.
 
+(* [img_ok] unfolded: the image reads as some directory [d] ([reads_as]: per file the records of [d]
+   plus possibly a torn tail, hinted files through their hint file only), and [d] opens to the map.
+   What [reads_as] promises about the scanner is this: *)
+Theorem C03_reads_as_is_what_the_scanner_reads : forall img d, reads_as img d -> wf_dir d -> wf_hints d ->
+  forall id f, dir_get d id = Some f ->
+    match d_hint f with
+    | None => exists b, img (FData id) = Some b /\ scan dec_entry b = Some (layout 0 (d_data f))
+    | Some hs => exists b, img (FHint id) = Some b /\ scan dec_hint b = Some (hint_layout 0 hs)
+    end.
+Proof. exact reads_scan. Qed.
+Print Assumptions C03_reads_as_is_what_the_scanner_reads.
+
+(* non-vacuity: a concrete script, its trace is well-formed, and a crash image that cuts the second
+   write after 9 bytes exists *)
+Example C03_crash_example :
+  let c := mkCfg 60 false 0 1 0 1000000000 in
+  let ops := [OSet [107] [1; 2]; OSet [107] [3]; ODel [107]] in
+  let s0 : fs := fun f => match f with FData 0 => Some [] | _ => None end in
+  rep s0 (s_dir init) /\ no_merge ops /\ trace_wf (snd (run c init ops)) /\
+  exists img, image_of s0 (snd (run c init ops)) img /\
+    img (FData 0) = Some (enc_entry (mkEntry 1 [107] (Some [1; 2])) ++ firstn 9 (enc_entry (mkEntry 2 [107] (Some [3])))).
+Proof.
+  cbv zeta. split; [|split; [|split]].
+  - intros id. destruct id as [|p]; vm_compute; auto.
+  - intros o [<-|[<-|[<-|[]]]]; reflexivity.
+  - repeat constructor; cbn [call_wf]; eexists; (split; [|reflexivity]); unfold wf_entry, i64_ok; cbn; repeat split; lia.
+  - eexists. split.
+    + eapply (img_torn _ _ _ [SWrite (FData 0) (enc_entry (mkEntry 1 [107] (Some [1; 2])))] (FData 0)
+                (firstn 9 (enc_entry (mkEntry 2 [107] (Some [3])))) (skipn 9 (enc_entry (mkEntry 2 [107] (Some [3]))))).
+      * vm_compute. reflexivity.
+      * vm_compute. discriminate.
+      * cbn [app fs_run fs_step]. reflexivity.
+    + vm_compute. reflexivity.
+Qed.
+
 (* ... and for scripts with merges, given the same statement for one merge pass (Store/CrashMerge.v) *)
 Theorem C03_script_crash_safe : forall c ops s s0,
-  Inv s -> run_ready c s ops -> rep s0 (s_dir s) ->
+  Inv s -> run_ready c s ops -> rep s0 (s_dir s) -> trace_wf (snd (run c s ops)) ->
   (forall s' o, Inv s' -> op_ready c s' o -> In o ops -> step_safe_at c s' o) ->
   (exists s1, fs_run s0 (snd (run c s ops)) = Some s1 /\ rep s1 (s_dir (fst (fst (run c s ops))))) /\
   forall img, image_of s0 (snd (run c s ops)) img ->
